@@ -17,13 +17,15 @@ RULE = ('exhaustive over ordered pairs and triples of handler shapes {return v, 
         '(1-2 more times, as a persistent Timer does) once it has been handled, every firing judged like a fresh event; non-trivial = the event has >= 2 handlers of '
         'different shapes or a generator handler; distinct = hash of the program')
 ASSUMPTIONS = [
-    'handlers returning Value objects or using generator `return v` are not generated (the statement does not speak about them)',
+    'generator `return v` is not generated; a handler may return the Value of an event it fired (nested-value idiom): for such events only the '
+    'feedback clauses (exception / failure / success iff, ordering) and the errors flag are evaluated, not the content of the chained Value',
     'the number of *_value_changed notifications is not asserted (not stated); notify is only exercised',
     'evaluated at quiescence of a manager stepped by tick() from the checking thread',
 ]
 REQUIRED = ['falsy_result', 'handler_resumed_from_call', 'base_exception_raised', 'raise_plus_generator', 'generator_raises_at_step', 'multi_value_list', 'single_value_scalar', 'success_requested',
             'failure_requested', 'notify_requested', 'success_channels_override', 'child_event_from_handler', 'two_raises_one_event',
-            'same_event_object_fired_again', 'event_object_fired_again_after_a_handler_raised']
+            'same_event_object_fired_again', 'event_object_fired_again_after_a_handler_raised', 'handler_returned_nested_value',
+            'nested_value_next_to_a_raising_handler']
 REQUIRED_OBLIGATIONS = ['VALUE', 'ERRORS_FLAG', 'EXCEPTION_EVENTS', 'FAILURE_EVENTS', 'SUCCESS_ONCE_IFF', 'SUCCESS_AFTER_HANDLERS',
                         'ALL_HANDLERS_RAN', 'LATER_EVENTS_RUN']
 WORKER_TIMEOUT = {'quick': 300, 'thorough': 1500}
@@ -54,6 +56,8 @@ SHAPES = {
     'GCn': (True, [['call', {'name': 'k'}], ['yield', None], ['yield', 'a']]),
     'GCv': (True, [['call', {'name': 'k'}], ['yieldlit', False]]),
     'GWn': (True, [['wait', {'name': 'k'}], ['yield', None]]),
+    # the nested-value idiom: the handler returns the Value of an event it fires ('n' has one plain handler returning a value)
+    'RV': (False, [['retfire', {'name': 'n'}]]),
     # exceptions that derive from BaseException only (GeneratorExit-like): still "a handler that raised"
     'XB': (False, [['raise', 'base']]),
     'GXB1': (True, [['yield', 'a'], ['raise', 'base']]),
@@ -66,6 +70,8 @@ def run_case(case):
     hs = case['handlers']
     if not any(h['name'] == 'k' for h in hs):
         hs = case['handlers'] = hs + [dict(K_HANDLER)]
+    if not any(h['name'] == 'n' for h in hs):
+        hs = case['handlers'] = hs + [dict(N_HANDLER)]
     w = World({'handlers': hs})
     problems = []
     subjects = []
@@ -110,7 +116,7 @@ def evaluate(case, w, problems, canary, norm):
     per = {}
     for i, entry in enumerate(w.log):
         k = entry[0]
-        if k in ('P', 'PX', 'HS', 'HE', 'GY', 'GR', 'D'):
+        if k in ('P', 'PX', 'PV', 'HS', 'HE', 'GY', 'GR', 'D'):
             per.setdefault(entry[1], []).append((i, entry))
         elif k == 'FB':
             per.setdefault(entry[2], []).append((i, entry))
@@ -136,11 +142,18 @@ def evaluate(case, w, problems, canary, norm):
             if raises or any(e[0] == 'PX' for _, e in per.get(info['refire_of'], [])):
                 marks.add('event_object_fired_again_after_a_handler_raised')
         observed = norm(v.value)
-        counts['VALUE'] += 1
-        if observed != expected:
+        nested = any(e[0] == 'PV' for _, e in ents)
+        if nested:
+            # what the event's Value holds and flags while a nested Value is chained into it is not spelled out by the statement:
+            # only the feedback clauses are evaluated for such events
+            marks.add('handler_returned_nested_value')
+            if raises:
+                marks.add('nested_value_next_to_a_raising_handler')
+        counts['VALUE'] += 0 if nested else 1
+        if observed != expected and not nested:
             problems.append(('VALUE', {'event': uid, 'name': info['name'], 'expected': expected, 'observed': observed}))
         counts['ERRORS_FLAG'] += 1
-        if bool(v.errors) != bool(raises):
+        if bool(v.errors) != bool(raises):      # (the nested events of this workload never fail themselves)
             problems.append(('ERRORS_FLAG', {'event': uid, 'errors': v.errors, 'raises': raises}))
         excs = [e[2] for _, e in ents if e[0] == 'EXC']
         counts['EXCEPTION_EVENTS'] += 1
@@ -201,6 +214,7 @@ def evaluate(case, w, problems, canary, norm):
 
 # ------------------------------------------------------------------------------------------------
 K_HANDLER = {'hid': 900, 'name': 'k', 'prio': 0, 'gen': False, 'body': [['ret', 'k']], 'shape': 'R'}
+N_HANDLER = {'hid': 901, 'name': 'n', 'prio': 0, 'gen': False, 'body': [['ret', 'n']], 'shape': 'R'}
 
 
 def mk_handlers(name, shapes, hid0=1, extra=None):
